@@ -200,43 +200,51 @@ func (p *parser) parseExpr() (*SExpr, error) {
 	return p.parseCond()
 }
 
-// type names in binders / declarations: ident, *ident, pkg.ident, map[K]V, []T
+// type names in binders / declarations: ident, *T, []T, pkg.T, map[K]V, array[K]V
 func (p *parser) parseTypeName() (string, error) {
-	var b strings.Builder
-	for {
-		t := p.peek()
-		if t.k == "op" && (t.v == "*" || t.v == "[" || t.v == "]" || t.v == ".") {
-			b.WriteString(t.v)
-			p.next()
-			continue
-		}
-		if t.k == "ident" {
-			b.WriteString(t.v)
-			p.next()
-			// continue only if followed by '.' or we are inside map[...]
-			if p.isOp(".") || p.isOp("]") {
-				continue
-			}
-			if strings.Count(b.String(), "[") > strings.Count(b.String(), "]") {
-				continue
-			}
-			// map[K]V: after ']' need V
-			break
-		}
-		break
+	t := p.peek()
+	if t.k == "op" && t.v == "*" {
+		p.next()
+		in, err := p.parseTypeName()
+		return "*" + in, err
 	}
-	s := b.String()
-	if s == "" {
-		return "", fmt.Errorf("type expected")
+	if t.k == "op" && t.v == "[" {
+		p.next()
+		if err := p.expect("]"); err != nil {
+			return "", err
+		}
+		in, err := p.parseTypeName()
+		return "[]" + in, err
 	}
-	if strings.HasSuffix(s, "]") { // map[K] needs value type, []T handled above
-		rest, err := p.parseTypeName()
+	if t.k != "ident" {
+		return "", fmt.Errorf("type expected, got %q", t.v)
+	}
+	p.next()
+	name := t.v
+	if (name == "map" || name == "array") && p.isOp("[") {
+		p.next()
+		k, err := p.parseTypeName()
 		if err != nil {
 			return "", err
 		}
-		s += rest
+		if err := p.expect("]"); err != nil {
+			return "", err
+		}
+		v, err := p.parseTypeName()
+		if err != nil {
+			return "", err
+		}
+		return name + "[" + k + "]" + v, nil
 	}
-	return s, nil
+	if p.isOp(".") {
+		p.next()
+		n2 := p.next()
+		if n2.k != "ident" {
+			return "", fmt.Errorf("type name expected after '.'")
+		}
+		return name + "." + n2.v, nil
+	}
+	return name, nil
 }
 
 func (p *parser) parseCond() (*SExpr, error) {
@@ -469,6 +477,8 @@ type Contract struct {
 	NoInline bool
 	Expands  []string
 	ModNothing bool
+	Extern   bool // contract on a function/interface of a dependency (key = full name)
+	DynPure  bool // dynamic calls without static callee in this body are assumed to modify nothing
 	FrameTag string
 	Updates  []GhostUpdate // ghost assignments executed at every return (model fields only)
 	Claims   []Clause      // postconditions checked on the body but never assumed by callers (used for clauses that are known findings)
@@ -575,7 +585,7 @@ func ParseContractFile(path, pkg string) (*ContractFile, error) {
 		body := strings.TrimPrefix(t, "//@")
 		lines = append(lines, ln{body, i + 1})
 	}
-	keywords := []string{"claims", "grants", "forbids", "footprint", "iterator", "count", "update", "func", "assume", "interface", "method", "requires", "ensures", "modifies", "invariant", "safety", "ghost", "model", "repr", "axiom", "implements", "lemma", "yields", "property", "noinline", "const", "expands", "inline"}
+	keywords := []string{"dyncalls", "claims", "grants", "forbids", "footprint", "iterator", "count", "update", "func", "assume", "interface", "method", "requires", "ensures", "modifies", "invariant", "safety", "ghost", "model", "repr", "axiom", "implements", "lemma", "yields", "property", "noinline", "const", "expands", "inline"}
 	isKw := func(s string) bool {
 		f := strings.Fields(s)
 		if len(f) == 0 {
@@ -627,6 +637,12 @@ func ParseContractFile(path, pkg string) (*ContractFile, error) {
 			}
 			name, _ := splitTag(rest)
 			cur = &Contract{Pkg: pkg, Target: name, Trusted: trusted, Invs: map[string][]Clause{}, File: path, Line: l.n}
+			if strings.Contains(name, "/") {
+				// function of a dependency, given by its full name, e.g.
+				// github.com/ethereum/go-ethereum/core.(*GasPool).SubGas — always assumed
+				cur.Extern = true
+				cur.Trusted = true
+			}
 			cf.Funcs = append(cf.Funcs, cur)
 			curIface = nil
 		case "interface":
@@ -754,6 +770,10 @@ func ParseContractFile(path, pkg string) (*ContractFile, error) {
 			}
 			s, _ := splitTag(rest)
 			cur.Safety = s
+		case "dyncalls":
+			if cur != nil && strings.HasPrefix(rest, "pure") {
+				cur.DynPure = true
+			}
 		case "noinline":
 			if cur != nil {
 				cur.NoInline = true
